@@ -13,6 +13,7 @@
 -/
 import DuckModel.Lemmas.AliasCmdLemmas
 import DuckModel.Generated.Scripts
+import DuckModel.Props.C19Scripts
 
 namespace Duck.Alias
 open Duck
